@@ -1,7 +1,7 @@
 (* C01 — container round trip is lossless for every tile set and every format. *)
 From Coq Require Import List NArith ZArith Lia.
 From VT Require Import Base.Outcome Gen.Constants Model.BBox Proofs.BBoxProofs Model.MVT Model.TileId Proofs.TileIdProofs
-  Model.PMDir Proofs.PMDirProofs Model.VTFormat Proofs.VTFormatProofs.
+  Model.PMDir Proofs.PMDirProofs Model.VTFormat Proofs.VTFormatProofs Model.VTBlock Proofs.VTBlockProofs.
 Import ListNotations.
 
 (* index arithmetic in the source is the 64-bit variant the theorems are about *)
@@ -18,6 +18,19 @@ Theorem C01_versatiles_layout :
         vt_lookup bbox_index_variant blocks (z, x, y) = Ok (if contains2 (pyr z) x y then tiles (z, x, y) else None).
 Proof. exact vt_roundtrip. Qed.
 Print Assumptions C01_versatiles_layout.
+
+(* versatiles, inside a block: tiles are appended in stream order, payloads below 1000 bytes are
+   stored once per block; every slot reads back exactly its own tile through its index entry, for
+   every sequence of payloads (duplicates, sizes on both sides of the threshold, missing tiles) *)
+Theorem C01_versatiles_block_storage :
+  forall slots i,
+    read_slot (write_block slots) i =
+      match nth_error slots i with
+      | Some (Some d) => if (N.of_nat (length d) =? 0)%N then None else Some d
+      | _ => None
+      end.
+Proof. exact block_roundtrip. Qed.
+Print Assumptions C01_versatiles_block_storage.
 
 (* pmtiles: the two tile-id loops of tile_id.rs are inverse on every coordinate of every level, so
    distinct tiles get distinct directory entries and the reader's coverage scan recovers them *)
